@@ -79,6 +79,7 @@ fn avoid_flags_uncached() -> Avoid {
                 "multi_directive" => a.multi_directive = true,
                 "bom_midfile" => a.bom_midfile = true,
                 "regex_literal_operand" => a.regex_literal_operand = true,
+                "lone_surrogate_literal" => a.lone_surrogate_literal = true,
                 "spread_noniterable_literal" => a.spread_noniterable_literal = true,
                 "missing_proto_method" => a.missing_proto_method = true,
                 "plain_sum_operand" => a.plain_sum_operand = true,
